@@ -479,7 +479,7 @@ def run(acc, tier):
         engine.pmap(acc, shard_generated, extra=(200, 300, 40, 150, 150, 40))
     else:
         engine.pmap(acc, shard_levels, extra=(8,))
-        engine.pmap(acc, shard_generated, extra=(3000, 4000, 300, 2000, 2000, 1500))
-        engine.fuzz(acc, "hyp:standardise", CHECKS, 5000, max_len=2048)
+        engine.pmap(acc, shard_generated, extra=(15000, 20000, 1500, 10000, 10000, 6000))
+        engine.fuzz(acc, "hyp:standardise", CHECKS, 30000, max_len=2048)
     # per-perm notations are checked inside "level": report their number
     acc.note("perms_with_all_notations_checked", sum(math.factorial(k) for k in range((7 if tier == "quick" else 8) + 1)))
